@@ -84,6 +84,9 @@ func main() {
 	if err != nil && !*selftest {
 		fatal(2, "spec: %v", err)
 	}
+	if spec != nil {
+		loadBuildTags = spec.BuildTags
+	}
 	ov, pkgDirs, err := buildOverlay(*repo, scratch)
 	if err != nil {
 		fatal(2, "%v", err)
@@ -235,7 +238,7 @@ var stdInitDeny = map[string]bool{
 	"github.com/klauspost/compress/internal/cpuinfo": true, "github.com/klauspost/compress/flate": true, "compress/flate": true,
 	"golang.org/x/text/unicode/norm": true, "golang.org/x/text/secure/precis": true, "golang.org/x/text/unicode/bidi": true,
 	"golang.org/x/text/width": true, "golang.org/x/text/cases": true, "golang.org/x/text/language": true, "golang.org/x/text/internal/language": true,
-	"github.com/xdg-go/stringprep": true, "hash/crc32": true, "crypto/sha256": true, "crypto/sha512": true, "crypto/sha1": true, "crypto/md5": true, "crypto": true,
+	"github.com/xdg-go/stringprep": true, "hash/crc32": true,
 }
 
 func (p *Program) runInits(verbose bool) error {
@@ -254,7 +257,7 @@ func (p *Program) runInits(verbose bool) error {
 		path := sp.Pkg.Path()
 		isRepo := strings.HasPrefix(path, repoPath)
 		if !isRepo {
-			if stdInitDeny[path] || strings.HasPrefix(path, "internal/") || strings.HasPrefix(path, "runtime/") || strings.HasPrefix(path, "vendor/") || strings.HasPrefix(path, "crypto/") || strings.HasPrefix(path, "golang.org/x/") {
+			if stdInitDeny[path] || strings.HasPrefix(path, "internal/") || strings.HasPrefix(path, "runtime/") || strings.HasPrefix(path, "vendor/") || (strings.HasPrefix(path, "crypto/") && !cryptoInitAllow[path]) || strings.HasPrefix(path, "golang.org/x/") {
 				continue
 			}
 		}
@@ -287,6 +290,9 @@ func (p *Program) runInits(verbose bool) error {
 	p.baseSide = st.side
 	return nil
 }
+
+// hash packages whose initialisers only build constant tables (needed when they are interpreted: SCRAM, C18)
+var cryptoInitAllow = map[string]bool{"crypto/sha256": true, "crypto/sha512": true, "crypto/sha1": true, "crypto/md5": true}
 
 func zeroOwners(v Value, depth int) {
 	if depth > 6 {
